@@ -672,17 +672,17 @@ open BS.PrettyReparse in
 /-- **The pretty output is the plain output of the tree with the whitespace strings added**, character for character: C14's
     loop (`decodeImpl`, levels, literal mode, `strip`, `_indent_string`) run on the pieces C05's renderer computes, at any
     start level, equals C05's `renderL` of `prettyTreeL`; and in plain mode it is `renderL` of the tree itself. For the
-    formatters that substitute with `substitute_xml` ('minimal'), every forest without hidden elements / cdata-named
-    elements (`renderWritableL`), a whitespace indent unit. -/
+    formatters that substitute with `substitute_xml` ('minimal', whatever their `cdata_containing_tags`), every forest
+    without hidden elements — `script`/`style` with their unsubstituted text included: both `substitute_xml` and the
+    identity commute with `strip` and leave whitespace alone (`SubstOK`) —, a whitespace indent unit. -/
 theorem pretty_output_is_plain_output (ci : BS.Render.SCls → BS.Render.ClsInfo) (hci : ∀ c, ci c = BS.Render.assumedMarkup c)
     (f : BS.Render.Fmt) (hf : f.subst = some BS.Render.substXml) (u : PStr) (hu : ∀ c ∈ u, isSpace c = true)
-    (pwt : Option (List PStr)) (iv : PStr → Bool) (l : Int) (ds : List BS.Render.Node)
-    (h : BS.Render.renderWritableL iv f ds = true) :
+    (pwt : Option (List PStr)) (l : Int) (ds : List BS.Render.Node) (h : noHiddenL ds = true) :
     decodeImpl u (some l) (eventsL (toPL ci f pwt none 0 ds)) = BS.Render.renderL ci f none (prettyTreeL u pwt l ds) ∧
     decodeImpl u none (eventsL (toPL ci f pwt none 0 ds)) = BS.Render.renderL ci f none ds := by
   constructor
   · rw [pretty_refines_contents u l _ (distinctL_toPL ci f pwt ds none 0)]
-    exact prettyL_eq_renderL ci hci f hf u hu pwt iv ds none 0 l rfl h
+    exact prettyL_eq_renderL ci hci f hf u hu pwt ds none 0 l h
   · rw [plain_refines_contents, plainL_toPL]
 
 open BS.PrettyReparse in
@@ -731,7 +731,7 @@ theorem prettify_reparse_tokenized (bcfg : BS.Builder.Cfg) (acfg : BS.Adapter.AC
     eraseWsL bcfg (BS.Adapter.adapterBuild bcfg acfg (BS.Tokenizer.callbacks (BS.Tokenizer.run P
         (decodeImpl u (some l) (eventsL (toPL ci f pwt none 0 ds)))))).1 =
       eraseWsL bcfg (BS.Writer.normalise bcfg (BS.Render.toWDocL f ds)) := by
-  obtain ⟨e1, e2⟩ := pretty_output_is_plain_output ci hci f hf.1 u hu pwt acfg.isVoid l ds h.1
+  obtain ⟨e1, e2⟩ := pretty_output_is_plain_output ci hci f hf.1 u hu pwt l ds (noHiddenL_of_writable acfg.isVoid f ds h.1)
   have h' := pretty_tree_render_writable bcfg acfg f u pwt l ds h
   rw [e1, e2, BS.Props.C05.reparse_roundtrip_tokenized bcfg acfg hc P hP he ci hci f hf _ h',
     BS.Props.C05.reparse_roundtrip_tokenized bcfg acfg hc P hP he ci hci f hf _ h]
@@ -778,6 +778,19 @@ example : BS.PrettyReparse.eraseWsL BS.Props.C04.xB
 /-! Outside `RenderWritable` (script/style, single-quoted values, other formatters, hidden elements, non-whitespace units) the
     clause rests on the harness stream `reparse-model` (real prettify()/decode() text → real parser vs tokenizer model + builder
     model, erased trees compared). -/
+
+/-- script and style (outside `RenderWritable`: C04's writer has no raw-text elements, so the tokenizer step is recorded for
+    them): the text-level bridge and the document-level comparison still apply — their text is not substituted, is stripped
+    and indented like any other text, and the two documents build the same tree modulo whitespace -/
+def tkScript : List BS.Render.Node :=
+  [.tag (BS.Props.C05.tg "div") [.tag (BS.Props.C05.tg "script") [.str .script (ofS " a<b && c ")],
+     .tag (BS.Props.C05.tg "style") [.str .stylesheet (ofS "\n")], .str .navigable (ofS " x<y ")]]
+example : BS.PrettyReparse.noHiddenL tkScript = true ∧ BS.PrettyReparse.preAgreeL BS.Props.C04.xB tkPwt tkScript = true ∧
+    BS.Render.renderWritableL BS.Props.C05.tkA.isVoid BS.Props.C05.minimalHtml tkScript = false := by decide
+example : decodeImpl (ofS " ") (some 0) (eventsL (BS.PrettyReparse.toPL BS.Gen.C05.liveClsInfo BS.Props.C05.minimalHtml tkPwt none 0 tkScript)) =
+    ofS "<div>\n <script>\n  a<b && c\n </script>\n <style>\n </style>\n x&lt;y\n</div>\n" := by decide +kernel
+/-- a hidden element is outside the bridge: it has no pieces, so no line, while `prettyTree` would give it one -/
+example : BS.PrettyReparse.noHiddenL [.tag { BS.Props.C05.tg "p" with hidden := true } []] = false := by decide
 
 /-- `preAgreeL` is needed: were `p` whitespace-preserving for the builder only, the added whitespace would survive the erasure -/
 example : BS.PrettyReparse.preAgreeL { BS.Props.C04.xB with preserve := fun n => n == ofS "p" } tkPwt tkForest = false := by decide
